@@ -81,6 +81,8 @@ type State struct {
 	lastNow   *Term
 	loopHeld  []HeldLock
 	assumeTo  *State // evaluation copies forward their assumptions to the real state
+	dryFreshFrom int
+	pendingAx []pendingAxiom
 }
 
 func (st *State) clone() *State {
@@ -158,26 +160,107 @@ func (st *State) heapGet(name string, sort Sort) Term {
 		return t
 	}
 	t := st.x.decls.Const(name+"@0", sort)
-	st.x.baseArrays[name] = sort
+	if _, seen := st.x.baseArrays[name]; !seen {
+		st.x.baseArrays[name] = sort
+		if ax, ok := st.x.typeAxiom(name, t, Term{"alloc0", SInt}); ok {
+			st.x.decls.Axiom(ax)
+		}
+	}
 	return t
 }
 
-func (st *State) heapSet(name string, v Term) {
+type pendingAxiom struct {
+	name string
+	arr  Term
+}
+
+// flushAxioms asserts the typing axioms of freshly havoced arrays against the current allocation
+// counter (called once the counter has been advanced past whatever the havoc may have allocated).
+func (st *State) flushAxioms() {
+	for _, p := range st.pendingAx {
+		if ax, ok := st.x.typeAxiom(p.name, p.arr, st.alloc); ok {
+			st.assume(ax)
+		}
+	}
+	st.pendingAx = nil
+}
+
+// typeAxiom: every element of a heap array respects the Go type of the field it models.
+func (x *Exec) typeAxiom(name string, arr Term, alloc Term) (Term, bool) {
+	c, ok := x.leaf[name]
+	if !ok {
+		return Term{}, false
+	}
+	i, j := Term{"i!ta", SInt}, Term{"j!ta", SInt}
+	var el Term
+	vars := []Term{i}
+	if arr.Sort.Elem().IsArray() {
+		el = Select(Select(arr, i), j)
+		vars = append(vars, j)
+	} else {
+		el = Select(arr, i)
+	}
+	if el.Sort != SInt {
+		return Term{}, false
+	}
+	var body Term
+	if lo, hi, isInt := intRange(c.Typ); isInt && !strings.HasSuffix(c.Suffix, "#a") && !strings.HasSuffix(c.Suffix, "#l") {
+		body = And(Le(Term{lo, SInt}, el), Le(el, Term{hi, SInt}))
+	} else if isNamed(c.Typ, "time", "Time") {
+		return Term{}, false
+	} else if isRefLike(c) {
+		body = And(Ge(el, TZero), Le(el, alloc))
+	} else {
+		body = Ge(el, TZero)
+	}
+	return Forall(vars, body), true
+}
+
+func (x *Exec) noteLeaf(name string, c Comp) {
+	if _, ok := x.leaf[name]; !ok {
+		x.leaf[name] = c
+	}
+}
+
+func (st *State) heapSet(name string, v Term) { st.heapSetAt(name, v, nil) }
+
+// heapSetAt records a new version of array name; idx is the (first-level) index written.
+func (st *State) heapSetAt(name string, v Term, idx *Term) {
 	// name a new version to keep terms small
 	n := st.fresh("H", v.Sort)
 	st.assume(Eq(n, v))
 	st.heap[name] = n
-	if st.dryWrites != nil {
-		st.dryWrites[name] = true
+	st.noteWrite(name, idx)
+}
+
+// noteWrite: in dry-run mode remember which arrays the loop body writes, and whether every
+// write goes to an object allocated inside the body.
+func (st *State) noteWrite(name string, idx *Term) {
+	if st.dryWrites == nil {
+		return
 	}
+	loopFresh := idx != nil && isFreshTerm(*idx) && freshNumber(*idx) > st.dryFreshFrom
+	if loopFresh {
+		if _, ok := st.dryWrites[name]; !ok {
+			st.dryWrites[name] = false
+		}
+		return
+	}
+	st.dryWrites[name] = true
+}
+
+func freshNumber(t Term) int {
+	k := strings.LastIndex(t.S, "!")
+	n := 0
+	fmt.Sscanf(t.S[k+1:], "%d", &n)
+	return n
 }
 
 func (st *State) heapHavoc(name string, sort Sort) Term {
 	n := st.fresh("Hh", sort)
 	st.heap[name] = n
-	if st.dryWrites != nil {
-		st.dryWrites[name] = true
-	}
+	st.pendingAx = append(st.pendingAx, pendingAxiom{name, n})
+	st.noteWrite(name, nil)
 	return n
 }
 
@@ -210,6 +293,7 @@ func (v Val) prefix() string {
 
 func (st *State) arrFor(ptr Val, c Comp) (string, Sort) {
 	name := ptr.prefix() + c.Suffix
+	st.x.noteLeaf(name, c)
 	s := ArrSort(c.Sort)
 	if ptr.Idx != nil {
 		s = ArrSort(s)
@@ -232,7 +316,30 @@ func (st *State) load(ptr Val) Val {
 		}
 		out.C = append(out.C, t)
 	}
+	if isMapType(elem) {
+		out.Region = ptr.prefix()
+	}
 	return out
+}
+
+// transferMap moves a freshly made map into the region of the location it is stored to.
+func (st *State) transferMap(v Val, target string) {
+	src := regionOf(v)
+	if src == target || v.T().S == "0" {
+		return
+	}
+	if !strings.HasPrefix(src, "fresh:") {
+		unsupp("map value moves from region %s to region %s (maps must stay in the location class they were created for)", src, target)
+	}
+	from := st.mapArraysR(v.Typ, src)
+	to := st.mapArraysR(v.Typ, target)
+	r := v.T()
+	st.heapSetAt("mapdom:"+target, Store(to.dom, r, Select(from.dom, r)), &r)
+	st.heapSetAt("mapcard:"+target, Store(to.card, r, Select(from.card, r)), &r)
+	for i, c := range comps(from.mt.Elem()) {
+		st.heapSetAt("mapval:"+target+c.Suffix, Store(to.vals[i], r, Select(from.vals[i], r)), &r)
+	}
+	st.x.assumeNote("A-region: a map object is referenced from one location class only (the field or map-of-maps slot it was created for); maps in different location classes never alias")
 }
 
 func (st *State) loadIn(heap map[string]Term, ptr Val) Val {
@@ -245,6 +352,9 @@ func (st *State) loadIn(heap map[string]Term, ptr Val) Val {
 // store writes *ptr = v.
 func (st *State) store(ptr Val, v Val) {
 	elem := ptrElem(ptr.Typ)
+	if isMapType(elem) && isMapType(v.Typ) {
+		st.transferMap(v, ptr.prefix())
+	}
 	cs := comps(elem)
 	if len(cs) != len(v.C) {
 		panic(fmt.Sprintf("store: component mismatch for %s: %d vs %d (val type %s)", typeName(elem), len(cs), len(v.C), typeName(v.Typ)))
@@ -258,7 +368,8 @@ func (st *State) store(ptr Val, v Val) {
 		} else {
 			na = Store(a, ptr.T(), v.C[i])
 		}
-		st.heapSet(name, na)
+		r := ptr.T()
+		st.heapSetAt(name, na, &r)
 	}
 }
 
@@ -350,31 +461,49 @@ type mapArrs struct {
 	mt   *types.Map
 }
 
-func (st *State) mapArrays(t types.Type) mapArrs {
+// regionOf names the heap region of a map value.
+func regionOf(m Val) string {
+	if m.Region != "" {
+		return m.Region
+	}
+	return mapKeyName(m.Typ)
+}
+
+func isMapType(t types.Type) bool {
+	_, ok := types.Unalias(t).Underlying().(*types.Map)
+	return ok
+}
+
+func (st *State) mapArrays(m Val) mapArrs { return st.mapArraysR(m.Typ, regionOf(m)) }
+
+func (st *State) mapArraysR(t types.Type, n string) mapArrs {
 	mt := mapType(t)
 	if len(comps(mt.Key())) != 1 {
 		unsupp("map key type %s", typeName(mt.Key()))
 	}
-	n := mapKeyName(t)
 	ma := mapArrs{name: n, mt: mt}
 	ma.dom = st.heapGet("mapdom:"+n, ArrSort(ArrSort(SBool)))
 	ma.card = st.heapGet("mapcard:"+n, ArrSort(SInt))
 	for _, c := range comps(mt.Elem()) {
+		st.x.noteLeaf("mapval:"+n+c.Suffix, c)
 		ma.vals = append(ma.vals, st.heapGet("mapval:"+n+c.Suffix, ArrSort(ArrSort(c.Sort))))
 	}
 	return ma
 }
 
 func (st *State) mapHas(m Val, k Term) Term {
-	ma := st.mapArrays(m.Typ)
+	ma := st.mapArrays(m)
 	return And(Neq(m.T(), TZero), Select(Select(ma.dom, m.T()), k))
 }
 
 func (st *State) mapGetRaw(m Val, k Term) Val {
-	ma := st.mapArrays(m.Typ)
+	ma := st.mapArrays(m)
 	out := Val{Typ: ma.mt.Elem()}
 	for _, va := range ma.vals {
 		out.C = append(out.C, Select(Select(va, m.T()), k))
+	}
+	if isMapType(out.Typ) {
+		out.Region = ma.name + "[]"
 	}
 	return out
 }
@@ -384,7 +513,7 @@ func (st *State) mapGet(m Val, k Term) (Val, Term) {
 	has := st.mapHas(m, k)
 	raw := st.mapGetRaw(m, k)
 	z := zeroVal(raw.Typ)
-	out := Val{Typ: raw.Typ}
+	out := Val{Typ: raw.Typ, Region: raw.Region}
 	for i := range raw.C {
 		out.C = append(out.C, Ite(has, raw.C[i], z.C[i]))
 	}
@@ -392,7 +521,7 @@ func (st *State) mapGet(m Val, k Term) (Val, Term) {
 }
 
 func (st *State) mapLen(m Val) Term {
-	ma := st.mapArrays(m.Typ)
+	ma := st.mapArrays(m)
 	card := Select(ma.card, m.T())
 	st.mapCardFacts(m, ma)
 	return Ite(Eq(m.T(), TZero), TZero, card)
@@ -408,6 +537,8 @@ func (st *State) mapCardFacts(m Val, ma mapArrs) {
 	}
 	st.nonnil[key] = true
 	st.assume(Ge(card, TZero))
+	st.assume(Le(card, Term{"1099511627776", SInt}))
+	st.x.assumeNote("A-mem: a map holds fewer than 2^40 entries")
 	k := Term{"k!c", SInt}
 	st.assume(Forall([]Term{k}, Implies(Select(dom, k), Ge(card, IntLit(1)))))
 	w := st.fresh("wit", SInt)
@@ -415,29 +546,34 @@ func (st *State) mapCardFacts(m Val, ma mapArrs) {
 }
 
 func (st *State) mapUpdate(m Val, k Term, v Val) {
-	ma := st.mapArrays(m.Typ)
+	if isMapType(v.Typ) {
+		st.transferMap(v, regionOf(m)+"[]")
+	}
+	ma := st.mapArrays(m)
 	had := Select(Select(ma.dom, m.T()), k)
-	st.heapSet("mapcard:"+ma.name, Store(ma.card, m.T(), Add(Select(ma.card, m.T()), Ite(had, TZero, IntLit(1)))))
-	st.heapSet("mapdom:"+ma.name, Store(ma.dom, m.T(), Store(Select(ma.dom, m.T()), k, TTrue)))
+	mr := m.T()
+	st.heapSetAt("mapcard:"+ma.name, Store(ma.card, m.T(), Add(Select(ma.card, m.T()), Ite(had, TZero, IntLit(1)))), &mr)
+	st.heapSetAt("mapdom:"+ma.name, Store(ma.dom, m.T(), Store(Select(ma.dom, m.T()), k, TTrue)), &mr)
 	for i, c := range comps(ma.mt.Elem()) {
-		st.heapSet("mapval:"+ma.name+c.Suffix, Store(ma.vals[i], m.T(), Store(Select(ma.vals[i], m.T()), k, v.C[i])))
+		st.heapSetAt("mapval:"+ma.name+c.Suffix, Store(ma.vals[i], m.T(), Store(Select(ma.vals[i], m.T()), k, v.C[i])), &mr)
 	}
 }
 
 func (st *State) mapDelete(m Val, k Term) {
-	ma := st.mapArrays(m.Typ)
+	ma := st.mapArrays(m)
 	isNil := Eq(m.T(), TZero)
 	had := Select(Select(ma.dom, m.T()), k)
-	st.heapSet("mapcard:"+ma.name, Ite(isNil, ma.card, Store(ma.card, m.T(), Sub(Select(ma.card, m.T()), Ite(had, IntLit(1), TZero)))))
-	st.heapSet("mapdom:"+ma.name, Ite(isNil, ma.dom, Store(ma.dom, m.T(), Store(Select(ma.dom, m.T()), k, TFalse))))
+	mr := m.T()
+	st.heapSetAt("mapcard:"+ma.name, Ite(isNil, ma.card, Store(ma.card, m.T(), Sub(Select(ma.card, m.T()), Ite(had, IntLit(1), TZero)))), &mr)
+	st.heapSetAt("mapdom:"+ma.name, Ite(isNil, ma.dom, Store(ma.dom, m.T(), Store(Select(ma.dom, m.T()), k, TFalse))), &mr)
 }
 
 func (st *State) makeMap(t types.Type) Val {
 	r := st.freshRef("map")
-	m := Val{Typ: t, C: []Term{r}}
-	ma := st.mapArrays(t)
-	st.heapSet("mapcard:"+ma.name, Store(ma.card, r, TZero))
-	st.heapSet("mapdom:"+ma.name, Store(ma.dom, r, Term{"((as const (Array Int Bool)) false)", ArrSort(SBool)}))
+	m := Val{Typ: t, C: []Term{r}, Region: "fresh:" + r.S}
+	ma := st.mapArrays(m)
+	st.heapSetAt("mapcard:"+ma.name, Store(ma.card, r, TZero), &r)
+	st.heapSetAt("mapdom:"+ma.name, Store(ma.dom, r, Term{"((as const (Array Int Bool)) false)", ArrSort(SBool)}), &r)
 	return m
 }
 
@@ -470,8 +606,9 @@ func (st *State) makeSlice(t types.Type, length Term) Val {
 	z := zeroVal(elem)
 	for i, c := range comps(elem) {
 		name := elemPrefix(elem) + c.Suffix
+		st.x.noteLeaf(name, c)
 		a := st.heapGet(name, ArrSort(ArrSort(c.Sort)))
-		st.heapSet(name, Store(a, r, Term{fmt.Sprintf("((as const %s) %s)", ArrSort(c.Sort), z.C[i].S), ArrSort(c.Sort)}))
+		st.heapSetAt(name, Store(a, r, Term{fmt.Sprintf("((as const %s) %s)", ArrSort(c.Sort), z.C[i].S), ArrSort(c.Sort)}), &r)
 	}
 	return Val{Typ: t, C: []Term{r, length}}
 }
@@ -483,12 +620,13 @@ func (st *State) sliceAppend(s Val, vs []Val) Val {
 	n := s.C[1]
 	for ci, c := range comps(elem) {
 		name := elemPrefix(elem) + c.Suffix
+		st.x.noteLeaf(name, c)
 		a := st.heapGet(name, ArrSort(ArrSort(c.Sort)))
 		inner := Select(a, s.C[0])
 		for j, v := range vs {
 			inner = Store(inner, Add(n, IntLit(int64(j))), v.C[ci])
 		}
-		st.heapSet(name, Store(a, r, inner))
+		st.heapSetAt(name, Store(a, r, inner), &r)
 	}
 	return Val{Typ: s.Typ, C: []Term{r, Add(n, IntLit(int64(len(vs))))}}
 }
